@@ -685,7 +685,7 @@ func init() {
 	core.Register(&core.Prop{
 		ID:        "C19",
 		Technique: "interning monitor: twin types with/without intern over seeded histories through one re-used, overwritten, finally unmapped input buffer per goroutine; every string ever returned is kept with a private clone and re-verified; race lane free-running, plain lane serialised at the intern-miss yield hook",
-		Rule: "every 31st trial: for every length 1-17 and every bit of the first, middle and last byte, two values that differ in that bit through one interned field. Otherwise one trial = a fresh instance, a vocabulary of ~20 strings (empty, prefix-sharing, binary, 127/128/5000 bytes) plus fresh strings (p=1/5), 1-16 goroutines x 8-80 messages of a struct with 5 interned string positions (two plain fields, null.String, pointer, slice elements - one table each) and its twin without the option. " +
+		Rule: "every 31st trial: for every length 1-17 and every bit of the first, middle and last byte, two values that differ in that bit through one interned field; targets prepared by hand in every combination of held string, held validity, incoming string and validity. Otherwise one trial = a fresh instance, a vocabulary of ~20 strings (empty, prefix-sharing, binary, 127/128/5000 bytes) plus fresh strings (p=1/5), 1-16 goroutines x 8-80 messages of a struct with 5 interned string positions (two plain fields, null.String, pointer, slice elements - one table each) and its twin without the option. " +
 			"Per message: encoding equal to the twin's, decode from the goroutine's single mmap'd buffer which is then complemented, decoded strings equal to source and twin, data pointers outside the buffer; every message also decoded into one target that is never reset; all returned strings, and every fourth whole decoded value, re-verified every 16 messages and after the buffers are munmapped. distinct = trials that completed with re-verified strings",
 		Assume: []string{"the race detector's happens-before analysis for the race lane"},
 		Plan: func(tier string) []core.Lane {
